@@ -7,6 +7,7 @@ mod refmodel;
 mod rng;
 mod sim;
 mod storesim;
+mod txhsim;
 mod world;
 
 use serde_json::Value;
@@ -92,6 +93,7 @@ fn main() {
 				Some("chainsim") => checks::replay_chainsim(rp),
 				Some("storesim") => storesim::replay(rp),
 				Some("crashsim") => crashsim::replay(rp),
+				Some("txhsim") => txhsim::replay(rp),
 				other => Err(format!("unknown engine {:?}", other)),
 			};
 			node::cleanup_scratch_root();
